@@ -5,14 +5,14 @@ from pyvc.sorts import Q
 
 TOK = "lisp_parsers.pddl_tokenizer:PDDLTokenizer."
 
-_lex_lines = z3.Function("lex_lines", Q, Q)      # spec lexer applied to the list of lines (uninterpreted in proofs)
+from pyvc.sorts import lexp as _lexp, lexline as _lexline      # lexp(L, k): concat of lexline over the first k lines
 
 
 def _hook_lexed(interp, st, args):
     """lexed(self): token sequence of the tokenizer's content, concat(lexline(l) for l in content)."""
     content = interp.read_field(st, args[0], "PDDLTokenizer", "pddl_file_content")
     lines = interp.read_field(st, Val(content.t, ("ref", "list_str")), "list_str", "items")
-    return Val(_lex_lines(lines.t), ("seq", "str"))
+    return Val(_lexp(lines.t, z3.Length(lines.t)), ("seq", "str"))
 
 
 CONTRACTS = {
@@ -36,14 +36,25 @@ CONTRACTS = {
         decreases="len(tokens)",
         calls={"self.read_from_tokens": TOK + "read_from_tokens"},
     ),
-    # assumed here (bounded stand-in c11-lexline checks it against the character-level spec lexer)
+    TOK + "_is_comment_line": dict(
+        prop="C11", assumed=True, params={"self": ("ref", "PDDLTokenizer"), "line": "str"}, returns="bool", allocates=False,
+        # bounded (c11-lexline): a line recognised as a comment line carries no token
+        ensures=["implies(result, len(lexline(line)) == 0)"], raises={}, modifies=[]),
     TOK + "tokenize": dict(
-        prop="C11", assumed=True,
+        prop="C11",
         params={"self": ("ref", "PDDLTokenizer")},
+        locals={"tokens": ("ref", "deque")},
         returns=("ref", "deque"),
+        # ASSUMED LEMMA (the per-line pipeline is the spec lexer; audited exhaustively on short lines by the bounded stand-in c11-lexline):
+        axioms=["forall_str(lambda l: re.sub(r';.*', '', l).lower().replace('(', ' ( ').replace(')', ' ) ').split() == lexline(l))"],
+        # every line contributes exactly its tokens, in order: no line dropped, duplicated or reordered (all file lengths)
         ensures=["fresh(result)", "seq(result) == lexed(self)"],
         raises={}, modifies=[],
-        spec_hooks={"lexed": _hook_lexed},
+        calls={"self._is_comment_line": TOK + "_is_comment_line"},
+        loops={0: dict(invariants=["seq(tokens) == lex_lines(_seq[:_i])" if False else "seq(tokens) == lex_prefix(_seq, _i)", "fresh(tokens)"],
+                       modifies=["deque.items[tokens]"])},
+        spec_hooks={"lexed": _hook_lexed,
+                    "lex_prefix": lambda interp, st, a: Val(_lexp(a[0].t, a[1].t), ("seq", "str"))},
     ),
     TOK + "parse": dict(
         prop="C11",
@@ -73,12 +84,14 @@ from pyvc.bounded import Harness, Failure
 from spec import sexp as S
 
 LEVEL = "proof"
-EXPLANATION = ("read_from_tokens / parse are proved against flat()/wf_sexp for all token sequences (unbounded); the "
-               "per-line lexing pipeline of tokenize (regex, lower, replace, split) is a bounded stand-in compared with "
-               "the character-level spec lexer over all lines of a small alphabet.")
+EXPLANATION = ("read_from_tokens / parse are proved against flat()/wf_sexp for all token sequences (unbounded); tokenize's loop is proved to "
+               "concatenate the tokens of every line in order (all file lengths) relative to the assumed lemma that the per-line pipeline "
+               "(regex, lower, replace, split) equals the character-level spec lexer, which is a bounded stand-in over all lines of a small alphabet.")
 TRUSTED = ["collections.deque model (popleft, [0], len, extend) as a sequence cell",
            "spec lexer spec/sexp.py:lexline (defines what 'token' means); flat() injective on wf_sexp (audited bounded)"]
-ASSUMPTIONS = ["A5: RecursionError for nesting >= ~1000 not modelled", "A7: termination of read_from_tokens by checked variant len(tokens)",
+ASSUMPTIONS = ["assumed lemma in the proof of tokenize: for every line, re.sub(';.*','',l).lower().replace('(',' ( ').replace(')',' ) ').split() == lexline(l), and a line "
+               "recognised by _is_comment_line has no token (both audited exhaustively on short lines by c11-lexline; the string functions are uninterpreted in the proof)",
+               "A5: RecursionError for nesting >= ~1000 not modelled", "A7: termination of read_from_tokens by checked variant len(tokens)",
                "bounded: tokenize == lex only checked on enumerated lines/texts (alphabet and length stated in coverage.bounded)"]
 
 
